@@ -91,7 +91,34 @@ that file is the uncleaned text (after hint handling), and the file is reported 
 `C14_every_file_reported`, which has no hypothesis on `clean`. -/
 theorem C14_clean_raise_fallback {f : Name × Name} {e : Exc} (he : X.clean f.2 = .error e) :
     srcOf X f = X.prepare f.2 := by
-  simp [srcOf, cleanD, safeClean, he]
+  simp only [srcOf, cleanD, safeClean, he]
+  cases X.parse f.2 <;> rfl
+
+/-- **C14 (cleaning never repairs an invalid content — fix F48).** When the raw content of a file is not
+valid Python (`parse` fails on it), the cleaning is not applied at all: the stored source is the raw text
+after hint handling, WHATEVER `clean` is — i.e. the same under `--cleanup full` and `--cleanup none`. -/
+theorem C14_raw_invalid_uncleaned {f : Name × Name} {e : Exc} (h : X.parse f.2 = .error e) :
+    srcOf X f = X.prepare f.2 := by
+  simp only [srcOf, cleanD, safeClean, h]
+
+/-- **C14 (invalid content ⇒ single error label, under both strategies).** For a file whose raw content is
+not valid Python, and is still not once its blank ends are stripped and its (absent) hints handled
+(`prepare`; see the note on `get_program`'s `strip()`), the record holds the single label
+`ast_construction:<E>` of THAT text and the taxonomy's answer on it — with no caveat on the cleaning:
+`clean` does not appear in the statement. -/
+theorem C14_invalid_content_reported (hp : ParseCaught X) (hfl : FlattenCaught X) (hf : FeaturesTotal X)
+    (hn : (files.map (·.1)).Nodup) {f : Name × Name} (hfm : f ∈ files) {e e' : Exc}
+    (hraw : X.parse f.2 = .error e) (hprep : X.parse (X.prepare f.2) = .error e') :
+    ∃ db r, collect X toTaxa files = .ok db ∧ get? db.programs f.1 = some r ∧
+      r.source = X.prepare f.2 ∧
+      r.labels = [(sAst ++ e'.name, [(1, (((X.prepare f.2).count 10 : Nat) : Int) + 1)])] ∧
+      r.taxa = preparedTaxa (toTaxa f.1 [astLabel e'.name (X.prepare f.2)]) := by
+  obtain ⟨db, hdb, -, hrep⟩ := C14_every_file_reported (toTaxa := toTaxa) hp hfl hf hn
+  obtain ⟨r, hr, hsrc, hinv, -, -⟩ := hrep f hfm
+  have hs := C14_raw_invalid_uncleaned (X := X) hraw
+  rw [hs] at hsrc hinv
+  obtain ⟨h1, h2⟩ := hinv e' hprep
+  exact ⟨db, r, hdb, hr, hsrc, h1, h2⟩
 
 def exPath : Name := [97, 46, 112, 121] -- "a.py"
 def tokenError : Exc := { name := [84, 111, 107, 101, 110, 69, 114, 114, 111, 114], caught := false }
